@@ -103,22 +103,58 @@ func generators(r *vlib.Run) {
 		}
 	})
 
-	r.Section("gen.polytope", r.N(150, 2000), vlib.SectionOpts{}, func(c *vlib.Case) {
+	r.Section("gen.polytope", r.N(300, 4000), vlib.SectionOpts{}, func(c *vlib.Case) {
 		rng := c.Rng
 		// bounded polytope: a box plus random cutting planes that keep the origin strictly inside
 		var p model3d.ConvexPolytope
-		if rng.Intn(2) == 0 {
+		kind := rng.Intn(4)
+		degenerate := false
+		switch kind {
+		case 0, 1:
 			p = model3d.NewConvexPolytopeRect(model3d.XYZ(-1, -1.5, -0.7), model3d.XYZ(1.2, 1, 0.9))
-		} else {
+		case 2:
 			// random simplex-like hull of half-spaces in general position
 			for _, n := range []C3{{X: 1, Y: 1, Z: 1}, {X: -1, Y: 0.3, Z: 0.2}, {X: 0.1, Y: -1, Z: 0.3}, {X: 0.2, Y: 0.1, Z: -1}} {
 				p = append(p, &model3d.LinearConstraint{Normal: n.Add(randUnit(rng).Scale(0.2)), Max: 1 + rng.Float64()})
 			}
+		default:
+			// octahedron in general position: four planes meet at every vertex
+			degenerate = true
+			rot := model3d.NewMatrix3Rotation(randUnit(rng), rng.Float64()*3)
+			d := 0.3 + rng.Float64()
+			for _, sx := range []float64{-1, 1} {
+				for _, sy := range []float64{-1, 1} {
+					for _, sz := range []float64{-1, 1} {
+						p = append(p, &model3d.LinearConstraint{Normal: rot.MulColumn(model3d.XYZ(sx, sy, sz).Normalize()), Max: d})
+					}
+				}
+			}
 		}
-		extra := rng.Intn(8)
-		for i := 0; i < extra; i++ {
-			n := randUnit(rng).Scale(0.2 + 3*rng.Float64()) // unnormalised normals are allowed
-			p = append(p, &model3d.LinearConstraint{Normal: n, Max: n.Norm() * (0.3 + rng.Float64())})
+		if !degenerate {
+			extra := rng.Intn(8)
+			for i := 0; i < extra; i++ {
+				n := randUnit(rng).Scale(0.2 + 3*rng.Float64()) // unnormalised normals are allowed
+				p = append(p, &model3d.LinearConstraint{Normal: n, Max: n.Norm() * (0.3 + rng.Float64())})
+			}
+		}
+		// A half-space does not change when (Normal, Max) is multiplied by a positive
+		// factor; rescale constraints individually or all together by powers of ten.
+		switch rng.Intn(3) {
+		case 0:
+			for _, l := range p {
+				f := math.Pow(10, float64(rng.Intn(25)-12))
+				l.Normal, l.Max = l.Normal.Scale(f), l.Max*f
+			}
+			c.Count("gen.polytope.constraints_rescaled_individually", 1)
+		case 1:
+			f := math.Pow(10, float64(rng.Intn(25)-12))
+			for _, l := range p {
+				l.Normal, l.Max = l.Normal.Scale(f), l.Max*f
+			}
+			c.Count("gen.polytope.constraints_rescaled_together", 1)
+		}
+		if degenerate {
+			c.Count("gen.polytope.four_planes_per_vertex", 1)
 		}
 		mesh := p.Mesh()
 		if checkShell(c, "ConvexPolytope.Mesh", mesh, 2, map[string]interface{}{"constraints": fmtPolytope(p)}) {
@@ -131,7 +167,65 @@ func generators(r *vlib.Run) {
 					}
 				}
 			}
+			if degenerate && len(vlib.Tris(mesh)) != 8 {
+				c.Violation("model3d.ConvexPolytope.Mesh/octahedron-faces", fmt.Sprintf("%d triangles for an octahedron, want 8", len(vlib.Tris(mesh))), fmtPolytope(p))
+			}
 		}
+	})
+
+	// 2D polytopes: a rectangle cut by random lines, constraints rescaled
+	r.Section("gen.polytope2d", r.N(300, 4000), vlib.SectionOpts{}, func(c *vlib.Case) {
+		rng := c.Rng
+		p := model2d.NewConvexPolytopeRect(model2d.XY(-1, -1.5), model2d.XY(1.2, 1))
+		extra := rng.Intn(6)
+		for i := 0; i < extra; i++ {
+			th := rng.Float64() * 2 * math.Pi
+			n := model2d.XY(math.Cos(th), math.Sin(th)).Scale(0.2 + 3*rng.Float64())
+			p = append(p, &model2d.LinearConstraint{Normal: n, Max: n.Norm() * (0.3 + rng.Float64())})
+		}
+		if rng.Intn(3) != 0 {
+			same := rng.Intn(2) == 0
+			f := math.Pow(10, float64(rng.Intn(25)-12))
+			for _, l := range p {
+				if !same {
+					f = math.Pow(10, float64(rng.Intn(25)-12))
+				}
+				l.Normal, l.Max = l.Normal.Scale(f), l.Max*f
+			}
+			c.Count("gen.polytope2d.constraints_rescaled", 1)
+		}
+		var desc []string
+		for _, l := range p {
+			desc = append(desc, fmt.Sprintf("n=(%x,%x) max=%x", l.Normal.X, l.Normal.Y, l.Max))
+		}
+		mesh := p.Mesh()
+		c.Count("gen.ConvexPolytope2D.Mesh", 1)
+		segs := vlib.Segs(mesh)
+		topo := vlib.AnalyzeSegs(segs)
+		if !topo.ClosedOrientedManifold() {
+			c.Violation("model2d.ConvexPolytope.Mesh/closed-oriented-manifold", fmt.Sprint(topo.Problems), desc)
+			return
+		}
+		if topo.Components != 1 {
+			c.Violation("model2d.ConvexPolytope.Mesh/components", fmt.Sprintf("%d loops, want 1", topo.Components), desc)
+			return
+		}
+		// orientation: outward normals give a negative shoelace sum in model2d (same convention as
+		// the marching-squares checks of this monitor)
+		if a := vlib.SignedArea2(segs); a >= 0 {
+			c.Violation("model2d.ConvexPolytope.Mesh/orientation", fmt.Sprintf("signed area %g (outward normals give a negative shoelace sum)", a), desc)
+			return
+		}
+		// every vertex satisfies every constraint
+		for _, sg := range segs {
+			for _, l := range p {
+				if sg[0].Dot(l.Normal) > l.Max+1e-6*l.Normal.Norm() {
+					c.Violation("model2d.ConvexPolytope.Mesh/vertex-inside-constraints", fmt.Sprintf("vertex %v violates a half-plane", sg[0]), desc)
+					return
+				}
+			}
+		}
+		c.Nontrivial(fmt.Sprint("polytope2d", desc))
 	})
 
 	// extruded profiles of lattice-defined 2D solids (holes and islands)
